@@ -128,6 +128,17 @@ CHECKS = {
          "ExpectedText (precedence, keyword tables, rounding of charge and multiplicity) and the geometry block against the molecule.",
     note="charges/spins are quarter-valued away from ties; element symbols and the bohr-angstrom factor are the harness' own",
     technique="TLA+ model (Inputs.tla) checked with TLC + TLC validation of tokenised write_input outputs"),
+ "C02": dict(
+    category="exploration", design_ref="DESIGN.md section 6 C02",
+    text="Formats.tla holds, as TLA+ data, what each of the 13 read/write formats stores (attribute, exact/real, printed digits, "
+         "behaviour when absent, documented normalisations); TLC checks the table's well-formedness, the packing bijections and "
+         "the POSCAR grouping as a state machine, exports the table and validates, for every generated object (optional-attribute "
+         "subsets x sizes crossing field-width boundaries x magnitude classes x all bond types, tagged values), the relation "
+         "descriptor of every stored attribute after dump_one/load_one against Expect(fmt, key, present): same / defaulted / "
+         "poscar-order / bonds-untyped / casefold, never permuted, sign-flipped, rescaled, truncated, missing; refusals of "
+         "in-domain objects and unreadable output are violations.",
+    note="floating-point closeness is decided by the projection with per-field tolerances derived from the table; wavefunction equivalence under arbitrary conventions is C01",
+    technique="TLA+ format table (Formats.tla) exported by TLC drives tagged round trips; TLC validates the projected relation descriptors"),
 }
 NOT_YET = "check not built yet in this round (planned, see DESIGN.md section 6)"
 
